@@ -78,14 +78,19 @@ func vAssert(c bool, label string) {
 	if !c {
 		VFailed = append(VFailed, label)
 		fmt.Printf("VFAIL %s\n", label)
+		if vKnownKey != "" {
+			return
+		}
 		panic(vStop{})
 	}
 }
+
+var vKnownKey string
 func vCover(label string)     {}
 func vConcrete(x int64) int64 { return x }
 func vIsEngine() bool         { return false }
 func vOut(s string)           { fmt.Printf("VOUT %q\n", s) }
-func vKnown(key string)       { fmt.Printf("VKNOWN %s\n", key) }
+func vKnown(key string)       { vKnownKey = key }
 func vParam(name string, def int) int {
 	if v, ok := vReplay.Params[name]; ok {
 		return v
@@ -100,6 +105,19 @@ func VRun(name string) {
 		fmt.Println("VNOHARNESS", name)
 		os.Exit(3)
 	}
+	reps := 1
+	if s := os.Getenv("VERIF_REPEAT"); s != "" {
+		fmt.Sscanf(s, "%d", &reps)
+	}
+	for k := 0; k < reps; k++ {
+		vPos = 0
+		vKnownKey = ""
+		vRunOnce(h)
+	}
+	fmt.Println("VDONE")
+}
+
+func vRunOnce(h func()) {
 	defer func() {
 		if r := recover(); r != nil {
 			if _, stop := r.(vStop); stop {
@@ -109,7 +127,6 @@ func VRun(name string) {
 		}
 	}()
 	h()
-	fmt.Println("VDONE")
 }
 
 func VReplayHarness() string { return vReplay.Harness }
@@ -123,3 +140,11 @@ func vIte(c bool, a, b int64) int64 {
 	}
 	return b
 }
+
+// vCatchExit cannot intercept os.Exit natively: if f exits, the process ends
+// with the exit status, which the replay driver observes.
+func vCatchExit(f func()) (int, bool) { f(); return 0, false }
+
+// vPermuteMaps: natively Go randomises map iteration itself; the replay
+// driver repeats the harness (VERIF_REPEAT) to meet the failing order.
+func vPermuteMaps(on bool) {}
